@@ -37,12 +37,15 @@ Fixpoint value_in (base acc : Z) (ds : list Z) : Z :=
   | d :: r => value_in base (acc * base + d) r
   end.
 
+(* a numeral denotes its value in its base, capped at 2^31-1 (longer numerals read as 2^31-1: the implementation
+   saturates so that later arithmetic cannot overflow; ExprP.numeral_cap_is_code ties the constant to the code) *)
+Definition numeral_cap : Z := 2147483647.
 Definition lit_value (n : literal) : Z :=
-  match n with
-  | Dec ds => value_in 10 0 ds
-  | Hex _ ds => value_in 16 0 (map fst ds)
-  | Oct ds => value_in 8 0 ds
-  end.
+  Z.min (match n with
+         | Dec ds => value_in 10 0 ds
+         | Hex _ ds => value_in 16 0 (map fst ds)
+         | Oct ds => value_in 8 0 ds
+         end) numeral_cap.
 
 Definition hex_char (d : Z * bool) : Z :=
   if fst d <? 10 then 48 + fst d else if snd d then 65 + (fst d - 10) else 97 + (fst d - 10).
